@@ -95,6 +95,20 @@ func (s *handler4LogSlog) Handle(ctx context.Context, rec logslog.Record) error 
 	if wi, ok := s.Logger.(LogSlogAware); ok {
 		fields := convertLogSlogRecordAttrs(rec)
 
+		// WriteThru prints just what it is given, so the attributes bound to
+		// the logger behind this handler (see WithAttrs) are put in front of
+		// the record's own ones here; the record's win on duplicate keys.
+		var bound Attrs
+		switch z := s.Logger.(type) {
+		case *Entry:
+			bound = z.attrs
+		case *logimp:
+			bound = z.attrs
+		}
+		if len(bound) > 0 {
+			fields = append(append(make(Attrs, 0, len(bound)+len(fields)), bound...), fields...)
+		}
+
 		// rec.PC would be abandoned because we want skip the extra frames
 		ei := 0
 		if sa, ok := s.Logger.(interface{ Skip() int }); ok {
